@@ -14,13 +14,18 @@ on ordered streams: `unordered = ppi != DCEP && s.unordered`), then pushes = pop
 `peek` / `pop` is handed `contents.head?` — the OLDEST queued chunk, which in a list kept in push order is index 0.
 So the real queue's answer, expressed as an index into `Sender.St.pending`, is `0` every time: `SelFifo`.
 
-**What is still not a theorem.** That the Sender model's oracle IS the PendQ answer (the two models are not composed in
-Lean: `Sender` abstracts the queue to a list + oracle, `PendQ` abstracts chunks to `(id, sid, U, B, E, len)`). It is tied
-by the `as` correspondence harness: `go/harness/assoc_test.go` keeps a white-box shadow of the real queue in push order
-and logs, per gather, the shadow indices of the chunks the REAL `pendingQueue` handed out (`as ora … sel=`); the driver
-replays them through `Sender.gather` (DIFF on any disagreement in the packets) and the predicate `[C01,C17]` of
-`Driver/Assoc.lean` checks on the implementation's own log that in a non-interleaved sequence whose streams are all
-ordered every logged index is 0.
+**The composition.** `Model/NetSysQ.lean` puts the two models together: the message policy `MsgPol` runs next to the sender
+state, is pushed every chunk a write queues, and a gather's selection list is what draining it hands out, each chunk looked
+up by identity in the pending list. `C01.C01_netsysq_selfifo` / `C01_netsysq_prefix` / `C01_netsysq_no_queue_error`
+(`Props/C01sel.lean`) are about that composed model (their proofs use the invariant `QI` of `Proofs/NetSys/SelQ.lean`, the
+step-by-step form of the theorem below).
+
+**What is still not a theorem.** That the REAL queue and the real pending-order bookkeeping behave as the models say.
+`PendQ` is tied to pending_queue.go by `TestVerifPendQ`; the oracle values are tied by the `as` correspondence harness:
+`go/harness/assoc_test.go` keeps a white-box shadow of the real queue in push order and logs, per gather, the shadow
+indices of the chunks the REAL `pendingQueue` handed out (`as ora … sel=`); the driver replays them through
+`Sender.gather` (DIFF on any disagreement in the packets) and the predicate `[C01,C17]` of `Driver/Assoc.lean` checks on
+the implementation's own log that in a non-interleaved sequence whose streams are all ordered every logged index is 0.
 -/
 namespace C17
 open PendQ
